@@ -478,3 +478,83 @@ def subscribe_once(ctx, rule="R-SUBSCRIBE-HOOK"):
             ctx.violated(rule, f, inst, "the receive hook is not registered and no per-object state says it already is", f.node)
     if n == 0:
         ctx.unknown(rule, "no paths through Dm1.subscribe")
+
+
+def dm1_steps(ctx, rule="R-DM1-STEPS"):
+    """the steps between the bus and the DM1 subscribers / between the sender's callback and the bus that nothing else makes up for:
+    receive: a frame with the DM1 PGN is stored, parsed and handed to the subscribers - the code list is started afresh for every message
+    and gets one entry per code; every subscriber is called with the source, the lamp states, the codes and the time stamp;
+    send: each cycle asks the callback; stop_send removes the timer start_send registered; unsubscribe removes the subscriber;
+    DM22: a request is handed to the CA's send_pgn."""
+    P = ctx.prog
+    res = {}
+
+    def note(inst, ok, fn, node, why):
+        if ok:
+            res.setdefault(inst, None)
+        elif res.get(inst) is None:
+            res[inst] = (fn, node, why)
+
+    def calls(r, pred):
+        return [(i, e) for i, e in r.effects() if e.kind == "call" and pred(e.value)]
+    f = P.func("Dm1", "_receive")
+    for r in runs(ctx, f):
+        if r.term in ("raise", "exc") or not any(p and g[0] == "cmp" and g[1] == "==" and ("p", "pgn") in (g[2], g[3]) for g, p in lits(r.guards())):
+            continue
+        st = [i for i, e in r.effects() if e.kind == "store" and e.target == field("_data") and e.value == ("p", "data")]
+        pa = [i for i, _ in calls(r, lambda v: is_self_call(v, "_parse_dm1_receive_data"))]
+        no = [i for i, e in calls(r, lambda v: is_self_call(v, "_notify_subscribers") and v[2] == (("p", "sa"), ("p", "timestamp")))]
+        note("Dm1._receive: a DM1 frame is stored, parsed, then handed to the subscribers", bool(st) and bool(pa) and bool(no) and st[0] < pa[0] < no[0],
+             f, f.node, "subscribers are not called, or get the lamp states and codes of an earlier message")
+    f = P.func("Dm1", "_parse_dm1_receive_data")
+    fresh = app = False
+    for r in runs(ctx, f, unroll=1):
+        for i, e in r.effects():
+            if e.kind == "store" and e.target == field("_dtc_dic_list") and e.value == ("list", ()):
+                fresh = True
+            if e.kind == "call" and e.value[1] == ("attr", field("_dtc_dic_list"), "append") and e.value[2] and e.value[2][0][0] == "dict":
+                keys = {k[1] for k, _ in e.value[2][0][1] if is_const(k)}
+                app = app or {"spn", "fmi", "oc"} <= keys
+    note("Dm1 parser: the code list is started afresh for every message", fresh, f, f.node,
+         "the codes of every message received so far pile up: subscribers get codes the sender did not send")
+    note("Dm1 parser: one entry with spn / fmi / oc per code", app, f, f.node, "subscribers get an empty code list")
+    f = P.func("Dm1", "_notify_subscribers")
+    okc = False
+    for r in runs(ctx, f, unroll=1):
+        for i, e in r.effects():
+            if e.kind == "call" and e.value[1][0] == "iter" and contains(e.value[1], field("_subscribers")) and len(e.value[2]) == 4 and \
+                    e.value[2][0] == ("p", "sa") and e.value[2][3] == ("p", "timestamp"):
+                okc = True
+    note("Dm1 fan-out: every subscriber is called with (source, lamp states, codes, time stamp)", okc, f, f.node, "subscribers are not called")
+    f = P.func("Dm1", "_send")
+    asked = False
+    for r in runs(ctx, f, unroll=1):
+        for i, e in r.effects():
+            if e.kind == "call" and e.value[1][0] == "sub" and e.value[1][1] == ("p", "cookie") and e.value[1][2] == ("c", "cb"):
+                asked = True
+    note("Dm1 sender: each cycle asks the registered callback for lamp states and codes", asked, f, f.node,
+         "the DM1 carries what an earlier cycle (or nothing) supplied")
+    f = P.func("Dm1", "stop_send")
+    note("Dm1.stop_send removes a timer", any(calls(r, lambda v: mname(v) == "remove_timer") for r in runs(ctx, f)), f, f.node,
+         "the cyclic DM1 goes on after stop_send")
+    f = P.func("Dm1", "unsubscribe")
+    note("Dm1.unsubscribe removes the subscriber", any(calls(r, lambda v: v[1] == ("attr", field("_subscribers"), "remove") and v[2] == (("p", "callback"),))
+                                                      for r in runs(ctx, f)) or any(
+        e.kind == "store" and e.target == field("_subscribers") for r in runs(ctx, f) for _, e in r.effects()), f, f.node,
+         "the callback keeps being called after unsubscribe")
+    f = P.func("Dm1", "subscribe")
+    note("Dm1.subscribe records the subscriber", any(calls(r, lambda v: v[1] == ("attr", field("_subscribers"), "append") and v[2] == (("p", "callback"),))
+                                                   for r in runs(ctx, f)), f, f.node, "the callback is never called")
+    f = P.func("Dm22", "_send_request")
+    note("Dm22 request is handed to send_pgn", any(calls(r, lambda v: mname(v) == "send_pgn") for r in runs(ctx, f)), f, f.node, "no DM22 frame is sent")
+    for nm in ("request_clear_act_dtc", "request_clear_pa_dtc"):
+        f = P.func("Dm22", nm)
+        note("Dm22.%s builds a request" % nm, any(calls(r, lambda v: is_self_call(v, "_send_request")) for r in runs(ctx, f)), f, f.node, "no DM22 frame is sent")
+    for inst, bad in sorted(res.items()):
+        if bad is None:
+            ctx.holds(rule, inst)
+        else:
+            fn, node, why = bad
+            ctx.violated(rule, fn, inst, "not done: " + why, node)
+    if len(res) < 10:
+        ctx.unknown(rule, "DM1 steps not found (%d)" % len(res))
